@@ -111,11 +111,41 @@ func Extract(root string) ([]Row, error) {
 				min, max int
 			}
 			checks := map[string]chk{}
+			// helpers: package-level functions and methods other than Call with a constant CheckArgCount;
+			// a Call method without its own check that calls one of them inherits its bounds
+			helpers := map[string]chk{}
+			findCheck := func(body *ast.BlockStmt) chk {
+				var c chk
+				ast.Inspect(body, func(n ast.Node) bool {
+					if c.has {
+						return false
+					}
+					if ce, ok := n.(*ast.CallExpr); ok && typeName(ce.Fun) == "CheckArgCount" && len(ce.Args) == 6 {
+						mn, ok1 := intOf(ce.Args[4])
+						mx, ok2 := intOf(ce.Args[5])
+						if ok1 && ok2 {
+							c = chk{true, mn, mx}
+						}
+						return false
+					}
+					return true
+				})
+				return c
+			}
 			var fnames []string
 			for fn := range pkg.Files {
 				fnames = append(fnames, fn)
 			}
 			sort.Strings(fnames)
+			for _, fn := range fnames {
+				for _, d := range pkg.Files[fn].Decls {
+					if fd, ok := d.(*ast.FuncDecl); ok && fd.Body != nil && fd.Name.Name != "Call" {
+						if c := findCheck(fd.Body); c.has {
+							helpers[fd.Name.Name] = c
+						}
+					}
+				}
+			}
 			for _, fn := range fnames {
 				for _, d := range pkg.Files[fn].Decls {
 					fd, ok := d.(*ast.FuncDecl)
@@ -142,6 +172,21 @@ func Extract(root string) ([]Row, error) {
 						}
 						return true
 					})
+					if !c.has {
+						// one level of delegation
+						ast.Inspect(fd.Body, func(n ast.Node) bool {
+							if c.has {
+								return false
+							}
+							if ce, ok := n.(*ast.CallExpr); ok {
+								if h, ok := helpers[typeName(ce.Fun)]; ok {
+									c = h
+									return false
+								}
+							}
+							return true
+						})
+					}
 					checks[tn] = c
 				}
 			}
